@@ -83,7 +83,7 @@ def main(argv=None):
     os.makedirs(partdir, exist_ok=True)
     procs = []
     for k in range(nshards):
-        pf = os.path.join(partdir, "%s.%s.%d.json" % (args.id, args.tier, k))
+        pf = os.path.join(partdir, "%s.%s.%d.%d.json" % (args.id, args.tier, k, os.getpid()))  # pid: concurrent invocations must not collide
         if os.path.exists(pf):
             os.remove(pf)
         cmd = [sys.executable, "-W", "ignore", "-m", "vp.run", args.id, "--tier", args.tier, "--seed", str(args.seed),
